@@ -259,8 +259,11 @@ func runScenario(sc *Scenario, raceLog *raceWatch) *ScenResult {
 	}
 	var before [][]string
 	var est uint64 = 4000
+	printedLines() // discard leftovers
+	var soloPrinted, concPrinted string
 	if !sc.ColdFirst {
 		before, est = soloRun()
+		soloPrinted = printedLines()
 		if v := raceLog.check(); v != nil {
 			v.Detail = "race detector fired during a SOLO (single task) run: " + v.Detail
 			res.Viol = v
@@ -296,6 +299,7 @@ func runScenario(sc *Scenario, raceLog *raceWatch) *ScenResult {
 		bodies[t] = func() { conc[t] = runScript(ops, ps, recs[t], true) }
 	}
 	r := simrt.Run(cfg, bodies...)
+	concPrinted = printedLines()
 	res.Hash, res.Steps, res.Preempt, res.Switches = r.Hash, r.Steps, r.Preemptions, len(r.Decisions)
 	res.Decisions = r.Decisions
 	res.Overlap, res.Faults, res.MapPerms, res.LockSpins, res.Sites = r.Overlap, r.FaultsFired, r.MapPerms, r.LockSpins, r.SitesSwitched
@@ -324,6 +328,7 @@ func runScenario(sc *Scenario, raceLog *raceWatch) *ScenResult {
 	}
 	if before == nil {
 		before, _ = soloRun()
+		soloPrinted = printedLines()
 		if v := raceLog.check(); v != nil {
 			v.Detail = "race detector fired during a SOLO (single task) run: " + v.Detail
 			res.Viol = v
@@ -331,6 +336,18 @@ func runScenario(sc *Scenario, raceLog *raceWatch) *ScenResult {
 		}
 	}
 	var after [][]string // second solo pass, only computed when something differs
+	if soloPrinted != concPrinted {
+		// what the tasks print together is what they print alone, line by line (order across
+		// tasks is free): output lost, duplicated, torn or attributed to another value
+		after, _ = soloRun()
+		raceLog.check()
+		if again := printedLines(); again == soloPrinted {
+			res.Viol = &Violation{"outcome", "outcome:stdout-lines",
+				fmt.Sprintf("standard output of the concurrent run is not the lines of the solo runs\n alone     : %q\n concurrent: %q", clip(soloPrinted), clip(concPrinted))}
+			return res
+		}
+		res.SoloUnstable++
+	}
 	for t := 0; t < k; t++ {
 		for i := range sc.Tasks[t] {
 			b, c := at(before, t, i), at(conc, t, i)
@@ -548,11 +565,28 @@ func genRegexScenario(r *rng, cold bool) *Scenario {
 		fmt.Sprintf("^h[^%d]{1,%d}o$", r.intn(10), 2+r.intn(40)),
 		fmt.Sprintf("(é|l){%d,%d}", r.intn(3), 3+r.intn(40)),
 	}
+	// wide: dozens of distinct (cheap) patterns per scenario, so that anything bounded that
+	// is keyed by pattern text overflows while several tasks are using it
+	wide := r.chance(0.5)
+	if wide {
+		pats = nil
+		base := r.intn(1000)
+		for i := 0; i < 40; i++ {
+			pats = append(pats, fmt.Sprintf("^(h|k%d)[a-zé]{%d,}o?$", base+i, i%5))
+		}
+	}
 	for t := 0; t < k; t++ {
 		var ops []Op
 		n := 1 + r.intn(3)
 		for i := 0; i < n; i++ {
 			src := fmt.Sprintf("match(%q, s) || match(%q, o.name)", pats[r.intn(len(pats))], pats[r.intn(len(pats))])
+			if wide {
+				var parts []string
+				for j := 0; j < 6; j++ {
+					parts = append(parts, fmt.Sprintf("match(%q, %s)", pats[r.intn(len(pats))], []string{"s", "o.name", "ls[1]"}[j%3]))
+				}
+				src = "[" + strings.Join(parts, ", ") + "]"
+			}
 			p := Prog{Src: src, Env: []string{"map", "struct"}[r.intn(2)]}
 			if r.chance(0.5) {
 				ops = append(ops, Op{K: "eval", Prog: &p})
